@@ -486,7 +486,9 @@ def run_shard(spec, seed, col, tier):
                  ['drop'], ['drop', 'notif'], ['vpn-ann2', 0, 16, 1, 17, 'peer'], ['vpn-ann', 0, 16, 'peer'], ['vpn-ann', 0, 17, 'peer'], ['vpn-wd', 0, 'peer'],
                  ['fs-ann2', 0, 1, 'peer'], ['fs-wd', 0, 'peer'], ['xfam', [1], 'fs-wd', 0, 16], ['xfam', [2], 'vpn-ann', 0, 17],
                  ['vpn-ann', 1, 16, 'rest'], ['mp-both', 'vpn', 0, 1, 16, 'rest'], ['fs-ann', 1, 'rest'], ['mp-both', 'fs', 0, 1, 16, 'rest'],
-                 ['mp-both', 'vpn', 0, 1, 16, 'peer'], ['fs-ann', 3, 'rest'], ['fs-wd', 3, 'rest']]
+                 ['mp-both', 'vpn', 0, 1, 16, 'peer'], ['fs-ann', 3, 'rest'], ['fs-wd', 3, 'rest'],
+                 # (the same flowspec rule announced alone and together with a withdrawal: other attributes for the same rule)
+                 ['fs-ann', 0, 'peer'], ['mp-both', 'fs', 0, 1, 16, 'peer']]
         seqs = list(itertools.product(range(len(alpha)), repeat=spec['len']))[spec['part']::spec['parts']]
         for s in seqs:
             ops = [alpha[i] for i in s]
